@@ -21,10 +21,14 @@ def View.Injective (v : View) : Prop :=
 def View.Disjoint (v w : View) : Prop :=
   ∀ i j, InBox v.exts i → InBox w.exts j → v.addr i ≠ w.addr j
 
-/-- the addresses an elements iterator visits in `n` steps of `++` -/
-def ElemIt.addrs : Nat → ElemIt → List Int
-  | 0, _ => []
-  | n + 1, it => it.current :: addrs n it.inc
+/-- the addresses an elements iterator visits in `n` steps of `++` (all `n` increments are performed, as in the
+    library's loops; `none` if one of them is) -/
+def ElemIt.addrs : Nat → ElemIt → Option (List Int)
+  | 0, _ => some []
+  | n + 1, it => do
+    let it' ← it.inc
+    let rest ← addrs n it'
+    pure (it.current :: rest)
 
 /-- all extensions start at 0 (C07's quantifier: "zero-based arrays/views") -/
 def Layout.ZeroBased (l : Layout) : Prop := ∀ d ∈ l, d.ext.first = 0
